@@ -101,6 +101,12 @@ impl Parser {
 
         // not enough data
         if src.len() < frame_len {
+            // refuse a frame that announces more than `max_size` as soon as its header is
+            // complete instead of buffering its whole payload first
+            if length > max_size {
+                return Err(ProtocolError::Overflow);
+            }
+
             let min_length = min(length, max_size);
             let required_cap = match idx.checked_add(min_length) {
                 Some(cap) => cap,
@@ -349,6 +355,24 @@ mod tests {
         } else {
             unreachable!("error");
         }
+    }
+
+    #[test]
+    fn test_parse_frame_max_size_before_payload() {
+        // header announces 2^40 bytes; none of the payload has arrived
+        let mut buf = BytesMut::from(
+            &[
+                0x82u8, 0xff, 0x00, 0x00, 0x01, 0x00, 0x00, 0x00, 0x00, 0x00, 1, 2, 3, 4,
+            ][..],
+        );
+        assert!(matches!(
+            Parser::parse(&mut buf, true, 1024),
+            Err(ProtocolError::Overflow)
+        ));
+
+        // within the limit: still waits for the payload
+        let mut buf = BytesMut::from(&[0x82u8, 0x83, 1, 2, 3, 4, 0][..]);
+        assert!(is_none(&Parser::parse(&mut buf, true, 3)));
     }
 
     #[test]
